@@ -89,9 +89,18 @@ GP_STEPS = {
         [NoveltyStep(), SequenceStep(TournamentSelection(2), GenericMutationStep(1)), NoveltyStep()], weights=[1, 1, 0]),
     "novelty|novelty|tournament;mutation(1)|novelty[1,1,1,0.1]": lambda: ParallelStep(
         [NoveltyStep(), NoveltyStep(), SequenceStep(TournamentSelection(2), GenericMutationStep(1)), NoveltyStep()], weights=[1, 1, 1, 0.1]),
+    # a parallel step that is NOT the outermost one (its input is what the selection before it yields: a one-shot stream), and an
+    # exclusive-parallel step one of whose shares rounds to nothing
+    "tournament(3);par[elitism|mutation(1)][1,4]": lambda: SequenceStep(TournamentSelection(3), ParallelStep([ElitismStep(), GenericMutationStep(1)], weights=[1, 4])),
+    "tournament;par[mutation(1)|tournament;crossover(1)|novelty][2,2,1]": lambda: SequenceStep(
+        TournamentSelection(2), ParallelStep([GenericMutationStep(1), SequenceStep(TournamentSelection(2), GenericCrossoverStep(1)), NoveltyStep()], weights=[2, 2, 1])),
+    "xpar[mutation(1),novelty][19,1]": lambda: ExclusiveParallelStep([GenericMutationStep(1), NoveltyStep()], [19, 1]),
+    "elitism|xpar[mutation(1),novelty][19,1]": lambda: ParallelStep([ElitismStep(), ExclusiveParallelStep([GenericMutationStep(1), NoveltyStep()], [19, 1])], weights=[1, 9]),
     "elitism": lambda: ElitismStep(),
     "tournament": lambda: TournamentSelection(2),
 }
+NESTED = ["tournament(3);par[elitism|mutation(1)][1,4]", "tournament;par[mutation(1)|tournament;crossover(1)|novelty][2,2,1]", "xpar[mutation(1),novelty][19,1]",
+          "elitism|xpar[mutation(1),novelty][19,1]"]
 OVERSHOOTING = ["novelty|tournament;mutation(1)|novelty[1,1,0]", "novelty|novelty|tournament;mutation(1)|novelty[1,1,1,0.1]"]
 PROGRESSING = ["default", "elitism|novelty", "tournament;crossover(1);mutation(1)", "novelty", "mutation(1);tournament",
                "tournament;mutation(1);crossover(1)", "novelty|xpar[mutation(1),crossover(1)]", "elitism|xpar[mutation(1),crossover(1)]"]
@@ -255,6 +264,12 @@ def check_evaluation_budgets(h: Harness):
             for n in range(size, 3 * size + 3):
                 one("gp", size, st, n)
                 h.count("evals:overshooting-slices")
+    # nested compositions (populations large enough for every share that is meant to be non-empty)
+    for st in NESTED:
+        for size in ((5, 10) if not h.thorough else (4, 5, 6, 8, 10, 11, 20)):
+            for n in ((size + 1, 2 * size + 1, 50) if not h.thorough else tuple(range(size, 3 * size + 3)) + (50, 51)):
+                one("gp", size, st, n)
+                h.count("evals:nested-compositions")
     # steps that create no new individual: the counter cannot move
     for st in NON_PROGRESSING:
         for (size, n) in [(2, 3), (3, 10), (5, 6), (1, 2), (4, 4), (6, 2)] + ([(s, s + d) for s in range(1, 9) for d in (1, 5)] if h.thorough else []):
